@@ -20,7 +20,7 @@ ROOT = os.path.dirname(os.path.dirname(os.path.abspath(__file__)))
 def run_mutant(prop, m, tier='quick'):
     d = tempfile.mkdtemp(prefix='circus-mut-')
     try:
-        shutil.copytree('/repo/circus', os.path.join(d, 'circus'),
+        shutil.copytree(os.path.join(os.environ.get('VERIF_MUT_BASE', '/repo'), 'circus'), os.path.join(d, 'circus'),
                         ignore=shutil.ignore_patterns('__pycache__'))
         path = os.path.join(d, m["file"])
         src = open(path).read()
